@@ -407,7 +407,36 @@ def rule_literal_lossless(ck):
     ck.ob("table.literal_lossless", "equal_with_literal/wide-payloads-converted-checked", wide <= checked or not lossy and len(checked) >= 3, f"checked conversions from {sorted(checked)}", f.loc())
 
 
+def rule_literal_arity(ck):
+    """a composite literal matches only a value with the same number of components"""
+    prog = ck.prog
+    ck.rule("table.literal_arity", "Value::match_literal: every element-wise comparison of a composite literal ({a, b, ..} / {f: a, ..}) with a sequence of items or members is preceded by a comparison of the two lengths (a `zip` or an indexed loop alone stops at the shorter side: `m[{1}]` would match the key (1, 2))")
+    fs = [f for p_, f in prog.fns.items() if p_ == VAL + "::match_literal"]
+    if not ck.ob("table.literal_arity", "match_literal/exists", len(fs) == 1, "", ""):
+        return
+    f = fs[0]
+    ck.saw(f)
+    def is_len(e):
+        while e[0] in ("cast", "try", "ref"):
+            e = e[2] if e[0] == "cast" else e[1]
+        return e[0] == "call" and e[1].endswith("::len") or (e[0] == "un" and e[1] == "PtrMetadata")
+    len_cmp = []
+    for i, j, pl, rv, sp in f.assigns():
+        if rv["r"] == "bin" and rv["op"] in ("Ne", "Eq"):
+            a, b = expr_of(f, rv["a"], depth=6), expr_of(f, rv["b"], depth=6)
+            if is_len(a) and is_len(b):
+                len_cmp.append(i)
+    loops = [c for c in f.calls() if is_iter_next(c) and c.bb in f.after(c.bb)]
+    ck.floor("table.literal_arity", "element-wise loops in match_literal", len(loops), 4)
+    ck.floor("table.literal_arity", "length comparisons in match_literal", len(len_cmp), 4)
+    for key, c in keyed_sites(loops, lambda c: "loop"):
+        src = expr_str(expr_of(f, c.args[0], depth=8), 8)
+        ok = any(f.dominates(b, c.bb) for b in len_cmp)
+        ck.ob("table.literal_arity", f"match_literal/{key}/lengths-compared-first", ok, f"iterates {src[:90]}", f.loc(c.bb), what="a composite literal of the wrong arity matches a key whose common prefix matches")
+
+
 def run(ck):
+    rule_literal_arity(ck)
     rule_literal_lossless(ck)
     rule_slice(ck)
     rule_dispatch(ck)
